@@ -26,7 +26,15 @@ PROPS["C17"] = {"engines": [("mutate", {"quick": 1600, "thorough": 40000}), ("si
                 "rule": MUT_RULE + " ; plus " + SITE_RULE,
                 "assumptions": SITE_ASSUME + ["copy.deepcopy copies lists of ints faithfully (the harness keeps its own heap as the independent record)"]}
 
+ALIGN_RULE = ("seeded generator (harness/engines/align.py): sequence pairs of length 0-6 (quick) / 0-9 (thorough) over alphabets of 1-4 symbols "
+              "(forcing ties), near-copies with random edits, and arbitrary Bool matrices as equality relation (non-symmetric, non-transitive); "
+              "non-trivial = the script contains an insertion or deletion; distinct = distinct (relation, lengths, kind)")
+PROPS["C11"] = {"engines": [("align", {"quick": 4000, "thorough": 100000})], "rule": ALIGN_RULE,
+                "assumptions": ["element source texts are recovered from the rewritten file with ast.get_source_segment",
+                                "black leaves hand-written element expressions such as 0+1 / 0x1 untouched apart from blanks"]}
+
 ENGINES = {
+    "align": "white-box differential run of _align.align/add_x on arbitrary relations + observable-level fix of list/tuple displays with hand-written elements",
     "mutate": "in-process differential run with mutable compared objects and mutation schedules; independent heap simulation as oracle",
     "site": "in-process differential run of the call-site state machine (Model/Site.lean, Table.lean) against the real snapshot classes",
 }
@@ -51,3 +59,8 @@ PROPS["C14"]["level_text"] = ("Theorems noninterference (for every interleaving 
 PROPS["C17"]["level_text"] = ("Theorems recorded_is_value_at_comparison_time (heap model: for every schedule of comparisons and mutations the table equals the run on the "
     "values at comparison time), mutation_after_irrelevant, unequal_copy_rejected(_later). Correspondence: real tests mutate the compared lists after and "
     "between assertions; the harness's own heap simulation is the independent record the written values are checked against.")
+
+PROPS["C11"]["level_text"] = ("Theorems (Props/C11.lean, for an ARBITRARY relation E and all lengths): matrix_eq_cell (the executable row-by-row matrix is the tabulated "
+    "specification), backM_fuel, nwAlign_valid, nwAlign_optimal, align_valid, align_prefix_suffix (maximal equal prefix and suffix are all m), align_optimal (no valid "
+    "alignment has more matches), addX_valid / addX_matches. Correspondence: model script = script of the real align/add_x on random relations, and the kept/replaced "
+    "pattern of the rewritten display equals the model's; direct oracle: validity, match count against an independent LCS, prefix/suffix text survival.")
